@@ -1,0 +1,321 @@
+//go:build verif
+
+package main
+
+// Verification hook (build tag `verif` only). When VEGETA_VERIF_DRIVER is set the
+// binary does not run the CLI: it serves a line protocol on stdin/stdout that calls
+// the package's own flag values and commands in-process. Add-only; nothing else in
+// the package refers to this file.
+
+import (
+	"bufio"
+	"encoding/hex"
+	"flag"
+	"fmt"
+	"io"
+	"os"
+	"sort"
+	"strconv"
+	"strings"
+	"time"
+
+	"github.com/tsenart/vegeta/v12/internal/resolver"
+	vegeta "github.com/tsenart/vegeta/v12/lib"
+)
+
+func init() {
+	if os.Getenv("VEGETA_VERIF_DRIVER") == "" {
+		return
+	}
+	in := bufio.NewReaderSize(os.Stdin, 1<<20)
+	out := bufio.NewWriter(os.Stdout)
+	for {
+		line, err := in.ReadString('\n')
+		if line = strings.TrimRight(line, "\r\n"); line != "" {
+			fmt.Fprintln(out, verifDispatch(line))
+			out.Flush()
+		}
+		if err != nil {
+			break
+		}
+	}
+	out.Flush()
+	os.Exit(0)
+}
+
+func vhex(b string) string {
+	if b == "" {
+		return "-"
+	}
+	return hex.EncodeToString([]byte(b))
+}
+
+func vunhex(s string) string {
+	if s == "-" {
+		return ""
+	}
+	b, err := hex.DecodeString(s)
+	if err != nil {
+		panic("bad hex token " + s)
+	}
+	return string(b)
+}
+
+func vunhexAll(xs []string) []string {
+	out := make([]string, len(xs))
+	for i, x := range xs {
+		out[i] = vunhex(x)
+	}
+	return out
+}
+
+func verifHeaderString(h map[string][]string) string {
+	keys := make([]string, 0, len(h))
+	for k := range h {
+		keys = append(keys, k)
+	}
+	sort.Strings(keys)
+	var sb strings.Builder
+	sb.WriteString(strconv.Itoa(len(keys)))
+	for _, k := range keys {
+		sb.WriteString(" " + vhex(k) + " " + strconv.Itoa(len(h[k])))
+		for _, v := range h[k] {
+			sb.WriteString(" " + vhex(v))
+		}
+	}
+	return sb.String()
+}
+
+func verifDispatch(line string) (res string) {
+	defer func() {
+		if r := recover(); r != nil {
+			res = "panic " + vhex(fmt.Sprint(r))
+		}
+	}()
+	f := strings.Split(line, " ")
+	op, args := f[0], f[1:]
+	switch op {
+	case "flag.rate": // fresh flag with the attack command's own default
+		fs := attackCmd().fs
+		v := fs.Lookup("rate").Value
+		if err := v.Set(vunhex(args[0])); err != nil {
+			return "err"
+		}
+		rf := v.(*rateFlag)
+		return fmt.Sprintf("ok %d %d %s", rf.Freq, int64(rf.Per), vhex(v.String()))
+	case "flag.ratestring": // String() of a rate, and Set of that string on a fresh flag
+		freq, _ := strconv.Atoi(args[0])
+		per, _ := strconv.ParseInt(args[1], 10, 64)
+		r := vegeta.Rate{Freq: freq, Per: time.Duration(per)}
+		s := (&rateFlag{&r}).String()
+		var r2 vegeta.Rate
+		if err := (&rateFlag{&r2}).Set(s); err != nil {
+			return "ok " + vhex(s) + " err"
+		}
+		return fmt.Sprintf("ok %s %d %d", vhex(s), r2.Freq, int64(r2.Per))
+	case "flag.headers":
+		h := headers{map[string][]string{}}
+		st := make([]string, 0, len(args))
+		for _, a := range args {
+			if err := h.Set(vunhex(a)); err != nil {
+				st = append(st, "e")
+			} else {
+				st = append(st, "k")
+			}
+		}
+		return "ok " + strings.Join(st, "") + " " + verifHeaderString(h.Header)
+	case "flag.maxbody":
+		var n int64 = -7
+		mb := &maxBodyFlag{&n}
+		if err := mb.Set(vunhex(args[0])); err != nil {
+			return "err"
+		}
+		return fmt.Sprintf("ok %d %s", n, vhex(mb.String()))
+	case "flag.dnsttl":
+		var d time.Duration = -7
+		df := &dnsTTLFlag{&d}
+		if err := df.Set(vunhex(args[0])); err != nil {
+			return "err"
+		}
+		return fmt.Sprintf("ok %d %s", int64(d), vhex(df.String()))
+	case "flag.connectto":
+		var m map[string][]string
+		cf := &connectToFlag{&m}
+		st := make([]string, 0, len(args))
+		for _, a := range args {
+			if err := cf.Set(vunhex(a)); err != nil {
+				st = append(st, "e")
+			} else {
+				st = append(st, "k")
+			}
+		}
+		return "ok " + strings.Join(st, "") + " " + verifHeaderString(m) + " " + vhex(cf.String())
+	case "flag.csl":
+		var l csl
+		if err := l.Set(vunhex(args[0])); err != nil {
+			return "err"
+		}
+		parts := make([]string, len(l))
+		for i := range l {
+			parts[i] = vhex(l[i])
+		}
+		return fmt.Sprintf("ok %d %s %s", len(l), strings.Join(parts, " "), vhex(l.String()))
+	case "flag.resolvers":
+		var l csl
+		_ = l.Set(vunhex(args[0]))
+		norm, err := resolver.VerifNormalizeAddrs(l)
+		if err != nil {
+			return "err"
+		}
+		parts := make([]string, len(norm))
+		for i := range norm {
+			parts[i] = vhex(norm[i])
+		}
+		return fmt.Sprintf("ok %d %s", len(norm), strings.Join(parts, " "))
+	case "resolver.rotation":
+		n, _ := strconv.Atoi(args[0])
+		got := resolver.VerifRotation(vunhexAll(args[1:]), n)
+		parts := make([]string, len(got))
+		for i := range got {
+			parts[i] = vhex(got[i])
+		}
+		return "ok " + strings.Join(parts, " ")
+	case "attack.cmdline":
+		// parse a command line with the attack command's own FlagSet, then evaluate the
+		// unlimited-rate guard of attack() (format is set to an unknown value so that
+		// attack returns before touching any file or socket once the guard has passed)
+		cmd := attackCmd()
+		cmd.fs.Init("vegeta attack", flag.ContinueOnError)
+		cmd.fs.SetOutput(io.Discard)
+		if err := cmd.fs.Parse(vunhexAll(args)); err != nil {
+			return "err"
+		}
+		rf := cmd.fs.Lookup("rate").Value.(*rateFlag)
+		mw, _ := strconv.ParseUint(cmd.fs.Lookup("max-workers").Value.String(), 10, 64)
+		var mbv, ttl int64
+		mbv = *(cmd.fs.Lookup("max-body").Value.(*maxBodyFlag).n)
+		ttl = int64(*(cmd.fs.Lookup("dns-ttl").Value.(*dnsTTLFlag).ttl))
+		hdr := cmd.fs.Lookup("header").Value.(*headers)
+		ct := cmd.fs.Lookup("connect-to").Value.(*connectToFlag)
+		err := attack(&attackOpts{rate: *rf.Rate, maxWorkers: mw, format: "verif-none"})
+		guard := "pass"
+		if err != nil && strings.Contains(err.Error(), "requires setting -max-workers") {
+			guard = "guard"
+		}
+		return fmt.Sprintf("ok %d %d %d %s %d %d %s | %s", rf.Freq, int64(rf.Per), mw, guard, mbv, ttl,
+			verifHeaderString(hdr.Header), verifHeaderString(*ct.addrMap))
+	case "report":
+		// report <typehex> <every ns> <bucketshex> <outputhex> <file hex>...
+		every, _ := strconv.ParseInt(args[1], 10, 64)
+		if err := report(vunhexAll(args[4:]), vunhex(args[0]), vunhex(args[3]), time.Duration(every), vunhex(args[2])); err != nil {
+			return "err " + vhex(err.Error())
+		}
+		return "ok"
+	case "encode":
+		// encode <tohex> <outputhex> <file hex>...
+		if err := encode(vunhexAll(args[2:]), vunhex(args[0]), vunhex(args[1])); err != nil {
+			return "err " + vhex(err.Error())
+		}
+		return "ok"
+	case "plot":
+		// plot <threshold> <titlehex> <outputhex> <file hex>...
+		th, _ := strconv.Atoi(args[0])
+		if err := plotRun(vunhexAll(args[3:]), th, vunhex(args[1]), vunhex(args[2])); err != nil {
+			return "err " + vhex(err.Error())
+		}
+		return "ok"
+	case "pump":
+		return verifPump(args[0])
+	}
+	return "bad-op"
+}
+
+// verifPump drives processAttack with a script: 'r' a result arrives, 's' a signal
+// arrives, 'c' the results channel is closed, 'e' the next Encode fails.
+// Every channel is unbuffered, so each event is consumed before the next is offered.
+func verifPump(script string) string {
+	atk := vegeta.NewAttacker()
+	res := make(chan *vegeta.Result)
+	sig := make(chan os.Signal)
+	var encoded []uint64
+	failNext := false
+	enc := vegeta.Encoder(func(r *vegeta.Result) error {
+		if failNext {
+			return fmt.Errorf("verif: encode failure")
+		}
+		encoded = append(encoded, r.Seq)
+		return nil
+	})
+	done := make(chan error, 1)
+	go func() { done <- processAttack(atk, res, enc, sig, nil) }()
+	returned := ""
+	seq := uint64(0)
+	consumed := 0
+loop:
+	for _, ev := range script {
+		switch ev {
+		case 'e':
+			failNext = true
+			consumed++
+			continue
+		}
+		var fire func() bool
+		switch ev {
+		case 'r':
+			r := &vegeta.Result{Seq: seq}
+			seq++
+			fire = func() bool {
+				select {
+				case res <- r:
+					return true
+				case err := <-done:
+					returned = verifErr(err)
+					return false
+				}
+			}
+		case 's':
+			fire = func() bool {
+				select {
+				case sig <- os.Interrupt:
+					return true
+				case err := <-done:
+					returned = verifErr(err)
+					return false
+				}
+			}
+		case 'c':
+			close(res)
+			err := <-done
+			returned = verifErr(err)
+			consumed++
+			break loop
+		default:
+			continue
+		}
+		if !fire() {
+			break loop
+		}
+		consumed++
+	}
+	if returned == "" {
+		// give the pump a moment to return on its own (after a second signal or an encode error)
+		select {
+		case err := <-done:
+			returned = verifErr(err)
+		case <-time.After(20 * time.Millisecond):
+			returned = "running"
+		}
+	}
+	parts := make([]string, len(encoded))
+	for i, s := range encoded {
+		parts[i] = strconv.FormatUint(s, 10)
+	}
+	return fmt.Sprintf("ok consumed=%d returned=%s stopped=%v encoded=%d %s", consumed, returned, atk.VerifStopped(), len(encoded), strings.Join(parts, ","))
+}
+
+func verifErr(err error) string {
+	if err == nil {
+		return "nil"
+	}
+	return "error"
+}
